@@ -554,7 +554,11 @@ class Impl:
     def op_OSAwg(self, s, ix):
         pkg = self.S[s].outputForAWGFile()
         key = ix if isinstance(ix, int) else slice(ix[1], ix[2], ix[3])
-        return {"channels": pkg.channels, "item": pkg[key]}
+        try:
+            item = pkg[key]
+        except Exception as e:  # noqa: BLE001 - indexing errors are part of the observation
+            item = Err(type(e).__name__)
+        return {"channels": pkg.channels, "item": item}
 
     def op_OSSeqx(self, s, fl):
         return self.S[s].outputForSEQXFileWithFlags() if fl else self.S[s].outputForSEQXFile()
@@ -713,3 +717,14 @@ def compare(m, x, path="$"):
 def short(v, n=160):
     s = repr(v)
     return s if len(s) <= n else s[:n] + "..."
+
+
+def compare_plain(a, b):
+    """Structural equality of two implementation values (nested lists / tuples / arrays / numbers)."""
+    if isinstance(a, (list, tuple, np.ndarray)) and isinstance(b, (list, tuple, np.ndarray)):
+        if len(a) != len(b):
+            return True
+        return any(compare_plain(x, y) for x, y in zip(a, b))
+    if isinstance(a, (list, tuple, np.ndarray)) or isinstance(b, (list, tuple, np.ndarray)):
+        return True
+    return not (a == b)
